@@ -372,6 +372,14 @@ MUTANTS = [
       "(\"open=\" ++ hex e)",
       ["C16"], "wire layer: the `open=` token repeats the existing content given on the line instead of openFile's disk"),
 
+    M("files-link-restart-accepts-streams", "Files", "QModel/Files.lean",
+      "else if !acceptStream && !a.seekable then .notSeekable",
+      "else if false && !a.seekable then .notSeekable",
+      ["C16"], "the restart observer links what cannot seek"),
+    M("files-link-seek-attribute-ignored", "Files", "QModel/Files.lean",
+      "| none => a.hasSeek",
+      "| none => false",
+      ["C16"], "an object without seekable() but with seek() counts as not seekable"),
     # ---- LogTable (C16, the logger's field table)
     M("logt-center-pad-swapped", "LogTable", "QModel/LogTable.lean",
       "| .center => spaces (n / 2) ++ s ++ spaces (n - n / 2)",
